@@ -400,7 +400,7 @@ class SimplicialComplex:
                     u = 1
                     while True:
                         q = f'{s}->{k}d{u}'
-                        if q not in self:
+                        if q not in self and q not in c and q not in rename.values():
                             rename[s] = q
                             break
                         u += 1
